@@ -131,10 +131,12 @@ def check(report: Report, repo: Repo) -> None:
             continue
         n_probe += 1
         it.events = []
+        n_gaps = len(it.GAPS)
         try:
             got = it.call_function(ac, [nm, s[0], s[1]], {})
         except Unsupported:
             got = "unsupported"
+        del it.GAPS[n_gaps:]  # the probe deliberately calls arbitrary non-rule names: not analysis gaps
         raised = [e["exc"] for e in it.events if e.kind == "raise"]
         bad = not (got is BOTTOM and raised and all(x == "ValueError" for x in raised))
         report.add("R2-lookup-domain", f"{base}::lookup-domain[{nm}]", not bad, f"'{nm}' is bound in constraints.py but is not a constraint rule: apply_constraint('{nm}', ...) must raise ValueError", ("accepted: " + fmt(got)[:80]) if bad else "ValueError", "ValueError", nontrivial=bad)
